@@ -1005,6 +1005,8 @@ def filters_check(prop, tier):
         h["origin"] = "model with depth bounds"
         scenarios.append(h)
     scenarios += library_scenarios(prop, tier, len(scenarios) + 1, rnd)
+    # the product of the dimensions: tree x path walk / glob x link behaviour x depth behaviour x stacks of filters and negations
+    scenarios += W.product_scenarios(random.Random(C.SEED + (13 if prop == "C13" else 16)), 150 if tier == "quick" else 1500, len(scenarios) + 1)
     pivots = W.prepare_glob_scenarios(scenarios)
     results, yielded, tstats, ntraces = W.run_and_validate(prop, scenarios, prop.lower(), v, pivots=pivots)
     for a, b in pairs:
@@ -1146,19 +1148,22 @@ def pruning_oracle(prop, scenarios, results, yielded, v, tag):
         if o is None or o["outcome"] != "ok" or "walk" not in o or any(not t["ok"] for t in o["walk"]):
             continue
         for y, comps in cands.values():
-            rejected = False
+            rejects = []
             for t, comp in zip(o["walk"], comps):
                 q = 0
                 for ch in comp:
                     q = t["delta"][q][sigma.index(ord(ch))] - 1
-                if not t["acc"][q]:
-                    rejected = True
-                    break
+                rejects.append(not t["acc"][q])
             n += 1
-            if rejected != (y["gout"] == "T"):
+            # an entry's OWN component is the glob layer's business when the entry arrives; an ancestor's was when the
+            # ancestor arrived - unless the depth behaviour hid the ancestor from the layer (minimum depth), in which case
+            # nothing is demanded for the descendant (it cannot match; whether it is dropped as a file or as a tree is open)
+            own = bool(rejects) and len(rejects) == len(comps) and rejects[-1] and not any(rejects[:-1])
+            anyrej = any(rejects)
+            if (own and y["gout"] != "T") or (y["gout"] == "T" and not anyrej):
                 v.disagree({"t": "DISAGREE", "what": "pruning_differs_from_component_programs", "sid": h["sid"], "scenario": h},
                            "%s: entry %r: a component program %s its component but the glob layer answers %s" % (
-                               h["desc"], y["text"], "rejects" if rejected else "does not reject", {"T": "tree", "N": "file", "F": "keep"}[y["gout"]]))
+                               h["desc"], y["text"], "rejects" if anyrej else "does not reject", {"T": "tree", "N": "file", "F": "keep"}[y["gout"]]))
     return n
 
 
